@@ -1,6 +1,7 @@
 package runner
 
 import (
+	"fmt"
 	"go/constant"
 	"go/types"
 	"sort"
@@ -132,6 +133,8 @@ func init() {
 			}
 			// lower-case and unknown command names
 			js = append(js, JobSpec{Set: "redis", Fn: "HarnessC03Pipeline", Params: p("cmd", "nosuchcmd", "maxargs", "2", "maxlen", "1", "unwind", "256")})
+			// SCAN MATCH with every pattern of up to 3 (thorough 4) arbitrary bytes (pattern compilation must not fail the connection)
+			js = append(js, JobSpec{Set: "redis", Fn: "HarnessC03Pipeline", Params: p("cmd", "SCAN", "fixed", "0,MATCH", "maxargs", "1", "maxlen", map[string]string{"quick": "3", "thorough": "4"}[rc.Tier], "unwind", "256"), Split: 3})
 			js = append(js, JobSpec{Set: "redis", Fn: "HarnessC03Pipeline", Params: p("cmd", "zadd", "maxargs", "3", "maxlen", "2", "unwind", "256")})
 			return js
 		},
@@ -195,6 +198,18 @@ func init() {
 			}
 			js = append(js, JobSpec{Set: "redis", Fn: "HarnessC04Raw", Params: p()})
 			js = append(js, JobSpec{Set: "redis", Fn: "HarnessC07Stream", Params: p("L", map[string]string{"quick": "6", "thorough": "8"}[rc.Tier]), Split: 5})
+			js = append(js, JobSpec{Set: "redis", Fn: "HarnessC03Pipeline", Params: p("cmd", "SCAN", "fixed", "0,MATCH", "maxargs", "1", "maxlen", map[string]string{"quick": "3", "thorough": "4"}[rc.Tier], "unwind", "256"), Split: 3})
+			// an offender and a well-behaved witness served concurrently by the real accept loop
+			wit := []string{"GET", "ZADD", "SCAN", "CONFIG", "QUIT", "nosuchcmd"}
+			if rc.Tier == "thorough" {
+				for _, c := range wit {
+					js = append(js, JobSpec{Set: "redis", Fn: "HarnessC07Witness", Params: p("cmd", c, "maxargs", "1", "maxlen", "1", "preempt", "1"), Split: 8, Overrides: netOverrides, Timeout: 40 * time.Minute})
+				}
+				wit = append(append([]string{}, names...), "nosuchcmd")
+			}
+			for _, c := range wit {
+				js = append(js, JobSpec{Set: "redis", Fn: "HarnessC07Witness", Params: p("cmd", c, "maxargs", "1", "maxlen", "1", "preempt", "0"), Split: 3, Overrides: netOverrides})
+			}
 			sa, fb, md, me := "1", "1", "1", "2"
 			if rc.Tier == "thorough" {
 				sa, fb, md, me = "3", "0", "2", "3"
@@ -208,15 +223,16 @@ func init() {
 			return js
 		},
 		UnwindIsFinding: true,
-		RequiredCovers:  map[string][]string{"HarnessC04Reply": {"end"}, "HarnessC07Stream": {"end"}, "HarnessC07Store": {"end"}, "HarnessC07Index": {"end"}},
+		RequiredCovers:  map[string][]string{"HarnessC04Reply": {"end"}, "HarnessC07Stream": {"end"}, "HarnessC07Store": {"end"}, "HarnessC07Index": {"end"}, "HarnessC03Pipeline": {"end"}, "HarnessC07Witness": {"end", "garbage", "cut", "reset", "write-failure"}},
+		EngineOnly:      map[string]bool{"HarnessC07Witness": true},
 		Bounds: func(tier string) map[string]interface{} {
-			return map[string]interface{}{"framework": "every registered command x <=1 (thorough 3) arguments, each any 0..1-byte string or one of 15 boundary integer tokens (0, +-1, +-2^31, 2^63-2, 2^63-1, -2^63, out-of-range, fractional), handler returning any of 7 result shapes (the 14-shape space incl. nil results is C04)", "byte_streams": "every byte string up to 6 (thorough 8) bytes through the connection loop", "example_store": "every command with <=1 (thorough 3) loose arguments, and 19 index/count/LIMIT templates (LRANGE, LINDEX, LPOP, RPOP, GETRANGE, SUBSTR, ZRANGE incl. REV/LIMIT/BYSCORE, ZREVRANGE, Z(REV)RANGEBYSCORE LIMIT, SCAN COUNT, SETEX, EXPIRE, INCRBY, DECRBY, SELECT) whose integers are 6 (thorough 15) boundary tokens or sign + 1 (thorough 2) symbolic digits, against key k absent or holding a string/list/set/zset/hash of <=2 (thorough 3) symbolic elements; clock concrete"}
+			return map[string]interface{}{"framework": "every registered command x <=1 (thorough 3) arguments, each any 0..1-byte string or one of 15 boundary integer tokens (0, +-1, +-2^31, 2^63-2, 2^63-1, -2^63, out-of-range, fractional), handler returning any of 7 result shapes (the 14-shape space incl. nil results is C04)", "byte_streams": "every byte string up to 6 (thorough 8) bytes through the connection loop", "scan_match": "SCAN 0 MATCH p for every p of <=3 (thorough 4) arbitrary bytes (invalid UTF-8 decided exactly)", "witness": "offender sending one request of GET/ZADD/SCAN/CONFIG/QUIT/an unknown command (thorough: every command) with <=1 arbitrary 0..1-byte argument and then behaving (close at the boundary) or misbehaving (1 garbage byte, FIN or RST at every offset, not reading replies), concurrently with a witness doing ECHO/GET/PING on the real accept loop (stub network), every non-preemptive interleaving (thorough: <=1 preemption for the six commands); then a late client", "example_store": "every command with <=1 (thorough 3) loose arguments, and 19 index/count/LIMIT templates (LRANGE, LINDEX, LPOP, RPOP, GETRANGE, SUBSTR, ZRANGE incl. REV/LIMIT/BYSCORE, ZREVRANGE, Z(REV)RANGEBYSCORE LIMIT, SCAN COUNT, SETEX, EXPIRE, INCRBY, DECRBY, SELECT) whose integers are 6 (thorough 15) boundary tokens or sign + 1 (thorough 2) symbolic digits, against key k absent or holding a string/list/set/zset/hash of <=2 (thorough 3) symbolic elements; clock concrete"}
 		},
 		Assumptions: append(append([]string{
 			"reduction: an unrecovered panic, fatal error or attacker-sized allocation in the connection goroutine terminates the process and with it every client; cross-connection interference through shared state is C13/C14/C16",
 			"a loop whose trip count is an attacker-chosen integer beyond the unwinding bound is replayed natively under a wall-clock limit",
 		}, connLoopAssumptions...), commonAssumptions...),
-		Outside: []string{"witness-connection experiment over real sockets", "handlers that panic themselves"},
+		Outside: []string{"witness-connection experiment over real sockets and with more than one offender", "handlers that panic themselves"},
 	})
 }
 
@@ -229,7 +245,8 @@ func init() {
 			}
 			return []JobSpec{{Set: "redis", Fn: "HarnessC11Cut", Params: p("requests", "2"), Split: 3}, {Set: "redis", Fn: "HarnessC11Cut", Params: p("requests", "1")}}
 		},
-		RequiredCovers: map[string][]string{"HarnessC11Cut": {"end", "cut-inside-stream"}},
+		UnwindIsFinding: true, // the connection's goroutine must end: a loop that does not is replayed natively under a wall-clock limit
+		RequiredCovers:  map[string][]string{"HarnessC11Cut": {"end", "cut-inside-stream", "peer-stopped-reading"}},
 		Bounds: func(tier string) map[string]interface{} {
 			r := 2
 			if tier == "thorough" {
@@ -273,7 +290,13 @@ func init() {
 				sm, dg, lm = "3", "18", "3"
 			}
 			for _, c := range CommandNames(rc.Ld) {
-				js = append(js, JobSpec{Set: "redis", Fn: "HarnessC05Dispatch", Params: p("cmd", c, "strmax", sm, "digits", dg, "listmax", lm), Split: 4})
+				d := dg
+				if rc.Tier == "thorough" && (c == "EXPIRE" || c == "EXPIREAT" || c == "SETEX" || c == "SET") {
+					// seconds/milliseconds are multiplied by 10^9 / 10^6: 64-bit multiplication by such constants over 18 symbolic
+					// digits does not finish in any back end (unknown after minutes); 9 digits do
+					d = "9"
+				}
+				js = append(js, JobSpec{Set: "redis", Fn: "HarnessC05Dispatch", Params: p("cmd", c, "strmax", sm, "digits", d, "listmax", lm), Split: 4})
 			}
 			js = append(js, JobSpec{Set: "redis", Fn: "HarnessC05Unknown", Params: p("namelen", map[string]string{"quick": "3", "thorough": "4"}[rc.Tier]), Split: 2})
 			return js
@@ -281,9 +304,9 @@ func init() {
 		RequiredCovers: map[string][]string{"HarnessC05Dispatch": {"end"}, "HarnessC05Unknown": {"end", "unknown", "custom"}},
 		Bounds: func(tier string) map[string]interface{} {
 			if tier == "thorough" {
-				return map[string]interface{}{"commands": "every registered command that the independent grammar maps onto a handler operation (others are reported under covers: not-in-grammar)", "strings": "0..3 bytes, all byte values", "integers": "sign + 1..18 symbolic digits", "floats": "every 1..2-byte literal that parses", "lists": "1..3 elements, duplicates allowed", "options": "all subsets, two orders, every letter case"}
+				return map[string]interface{}{"commands": "every registered command that the independent grammar maps onto a handler operation (others are reported under covers: not-in-grammar)", "strings": "0..3 bytes, all byte values", "integers": "sign + 1..18 symbolic digits (1..9 for the expiry arguments of SET/SETEX/EXPIRE/EXPIREAT, whose multiplication by 10^9 is out of the solvers' reach at 18 digits)", "floats": "every 1..2-byte literal that parses, and inf/+inf/-inf for score bounds", "lists": "1..3 elements, duplicates allowed", "options": "all subsets, two orders, every letter case"}
 			}
-			return map[string]interface{}{"commands": "every registered command that the independent grammar maps onto a handler operation (others are reported under covers: not-in-grammar)", "strings": "0..2 bytes, all byte values", "integers": "sign + 1..2 symbolic digits", "floats": "every 1..2-byte literal that parses", "lists": "1..2 elements, duplicates allowed", "options": "all subsets, two orders, every letter case"}
+			return map[string]interface{}{"commands": "every registered command that the independent grammar maps onto a handler operation (others are reported under covers: not-in-grammar)", "strings": "0..2 bytes, all byte values", "integers": "sign + 1..2 symbolic digits", "floats": "every 1..2-byte literal that parses, and inf/+inf/-inf for score bounds", "lists": "1..2 elements, duplicates allowed", "options": "all subsets, two orders, every letter case"}
 		},
 		Assumptions: append(append([]string{
 			"EXPIRE: the expected time is now+ttl for a clock reading between two readings of the harness; time.Now is an intrinsic returning non-decreasing wall-clock instants in [2020,2096]",
@@ -299,11 +322,14 @@ func init() {
 				js = append(js, JobSpec{Set: "redis", Fn: "HarnessC10Reject", Params: p("cmd", c)})
 			}
 			js = append(js, JobSpec{Set: "redis", Fn: "HarnessC10SetOptions", Params: p()})
+			for t := 0; t < 16; t++ {
+				js = append(js, JobSpec{Set: "redis", Fn: "HarnessC10Options", Params: p("template", fmt.Sprint(t))})
+			}
 			return js
 		},
-		RequiredCovers: map[string][]string{"HarnessC10Reject": {"end", "missing", "null", "non-numeric", "bad-integer", "dangling-half"}, "HarnessC10SetOptions": {"end", "nx-xx", "two-expiries", "non-positive-expiry", "repeated"}},
+		RequiredCovers: map[string][]string{"HarnessC10Reject": {"end", "missing", "null", "non-numeric", "bad-integer", "dangling-half"}, "HarnessC10SetOptions": {"end", "nx-xx", "two-expiries", "non-positive-expiry", "repeated"}, "HarnessC10Options": {"end", "null", "non-numeric", "bad-integer"}},
 		Bounds: func(tier string) map[string]interface{} {
-			return map[string]interface{}{"commands": "every registered command with an entry in the independent grammar table", "malformations": "each required position omitted; each element replaced by a null bulk; each numeric position replaced by any 1..2-byte non-numeric token, by out-of-range / fractional / empty tokens; each pair list cut to odd length; SET: NX/XX combined or repeated, two expiries, non-positive expiry (sign + 1..2 digits), repeated KEEPTTL/GET, expiry without value"}
+			return map[string]interface{}{"commands": "every registered command with an entry in the independent grammar table", "malformations": "each required position omitted; each element replaced by a null bulk; each numeric position replaced by any 1..2-byte non-numeric token, by out-of-range / fractional / empty tokens; each pair list cut to odd length; SET: NX/XX combined or repeated, two expiries, non-positive expiry (sign + 1..2 digits), repeated KEEPTTL/GET, expiry without value", "option_values": "16 templates (Z*RANGE* LIMIT offset count with and without WITHSCORES/BYSCORE/REV, SET EX/PX/EXAT/PXAT, SCAN COUNT/MATCH/TYPE, LPOP/RPOP count): each option value missing, null, any 0..2-byte non-number, 7 bad-integer tokens, while the other option values are any digit 1..9"}
 		},
 		Assumptions: append(append([]string{}, connLoopAssumptions...), commonAssumptions...),
 		Outside:     []string{"random corruption beyond the enumerated malformation classes"},
@@ -320,6 +346,8 @@ func init() {
 				return []JobSpec{
 					{Set: "redis", Fn: "HarnessC08Gate", Params: p("requests", "3", "passlen", "2"), Split: 4, Overrides: netOverrides},
 					{Set: "redis", Fn: "HarnessC08Gate", Params: p("requests", "2", "passlen", "3"), Split: 3, Overrides: netOverrides},
+					{Set: "redis", Fn: "HarnessC08Gate", Params: p("requests", "2", "passlen", "1", "tls", "1"), Split: 6, Overrides: netOverrides},
+					{Set: "redis", Fn: "HarnessC08Gate", Params: p("requests", "3", "passlen", "1", "small", "1", "tls", "1"), Split: 4, Overrides: netOverrides},
 					{Set: "redis", Fn: "HarnessC08TwoConns", Params: p("passlen", "2", "preempt", "2"), Split: 8, Overrides: netOverrides},
 					{Set: "redis", Fn: "HarnessC08Long", Params: p("extra", "255"), Overrides: netOverrides},
 					{Set: "redis", Fn: "HarnessC08Long", Params: p("extra", "256"), Overrides: netOverrides},
@@ -330,6 +358,7 @@ func init() {
 			return []JobSpec{
 				{Set: "redis", Fn: "HarnessC08Gate", Params: p("requests", "2", "passlen", "2"), Split: 6, Overrides: netOverrides},
 				{Set: "redis", Fn: "HarnessC08Gate", Params: p("requests", "3", "passlen", "1", "small", "1"), Split: 4, Overrides: netOverrides},
+				{Set: "redis", Fn: "HarnessC08Gate", Params: p("requests", "2", "passlen", "1", "small", "1", "tls", "1"), Split: 3, Overrides: netOverrides},
 				{Set: "redis", Fn: "HarnessC08TwoConns", Params: p("passlen", "1", "preempt", "1"), Overrides: netOverrides},
 				{Set: "redis", Fn: "HarnessC08Long", Params: p("extra", "255"), Overrides: netOverrides},
 				{Set: "redis", Fn: "HarnessC08Long", Params: p("extra", "256"), Overrides: netOverrides},
@@ -355,16 +384,18 @@ func init() {
 					{Set: "redis", Fn: "HarnessC13Conns", Params: p("requests", "2", "preempt", "2", "requirepass", "1"), Split: 12, Overrides: netOverrides},
 					{Set: "redis", Fn: "HarnessC13Conns", Params: p("requests", "3", "preempt", "1", "requirepass", "0"), Split: 12, Overrides: netOverrides},
 					{Set: "redis", Fn: "HarnessC13Conns", Params: p("requests", "3", "preempt", "1", "requirepass", "1"), Split: 12, Overrides: netOverrides},
+					{Set: "redis", Fn: "HarnessC13Select", Params: p(), Split: 3},
 				}
 			}
 			return []JobSpec{
 				{Set: "redis", Fn: "HarnessC13Conns", Params: p("requests", "2", "preempt", "1", "requirepass", "0"), Split: 10, Overrides: netOverrides},
 				{Set: "redis", Fn: "HarnessC13Conns", Params: p("requests", "2", "preempt", "1", "requirepass", "1"), Split: 10, Overrides: netOverrides},
+				{Set: "redis", Fn: "HarnessC13Select", Params: p(), Split: 3},
 			}
 		},
-		RequiredCovers: map[string][]string{"HarnessC13Conns": {"end"}},
+		RequiredCovers: map[string][]string{"HarnessC13Conns": {"end"}, "HarnessC13Select": {"end", "select-accepted", "select-refused"}},
 		Bounds: func(tier string) map[string]interface{} {
-			return map[string]interface{}{"connections": 2, "requests_per_connection": "2 (thorough also 3)", "request_alphabet": "SELECT d (symbolic digit) | AUTH right | AUTH wrong | GET | USET v (per-connection user data in the connection's sync.Map) | UGET", "schedules": "all interleavings of the two connection goroutines at transport reads and synchronisation operations with at most 1 (thorough 2) preemptive context switches", "requirepass": "with and without"}
+			return map[string]interface{}{"connections": 2, "requests_per_connection": "2 (thorough also 3)", "request_alphabet": "SELECT d (symbolic digit) | AUTH right | AUTH wrong | GET | USET v (per-connection user data in the connection's sync.Map) | UGET", "schedules": "all interleavings of the two connection goroutines at transport reads and synchronisation operations with at most 1 (thorough 2) preemptive context switches", "requirepass": "with and without", "successor": "after both connections have gone a third connection is served: it must start from the defaults (database 0, no user data, unauthorised when a password is required)", "select_tokens": "one connection: SELECT t1, GET, select t2, GET, SELECT (no argument), GET with t1,t2 any 1..2-byte token or one of 11 boundary tokens: the database seen by the handler changes only with a SELECT answered +OK"}
 		},
 		Assumptions: append(append([]string{"goroutines are scheduled by the engine at Read calls of the scripted connections and at every mutex / sync.Map / atomic operation; preemption between two plain memory accesses is outside the bound (data races are C14)"}, connLoopAssumptions...), commonAssumptions...),
 		Outside:     []string{"more than two connections, more context switches"},
@@ -383,11 +414,12 @@ func init() {
 			for _, f := range []string{"getrange", "counter", "string", "multi", "hash", "set", "zrev", "zrevscore", "system"} {
 				js = append(js, JobSpec{Set: "redis", Fn: "HarnessC12Derived", Params: p("family", f, "maxlen", ml, "maxmembers", mm), Split: 5})
 			}
+			js = append(js, JobSpec{Set: "redis", Fn: "HarnessC12Derived", Params: p("family", "seq", "steps", map[string]string{"quick": "2", "thorough": "3"}[rc.Tier]), Split: 5})
 			return js
 		},
 		RequiredCovers: map[string][]string{"HarnessC12Derived": {"end", "non-empty-range", "boundary", "overflow", "non-integer", "msetnx-refused"}},
 		Bounds: func(tier string) map[string]interface{} {
-			return map[string]interface{}{"getrange": "value length 0..4 (thorough 6), all byte values; start/end: sign + 1..2 symbolic digits and 8 boundary integers; missing key", "counters": "stored value absent / sign + 1..2 symbolic digits / any 1..2-byte non-integer; increment symbolic or int64 boundary", "zrevrange": "0..4 (thorough 5) members, start/stop sign + 1..2 symbolic digits, with and without scores", "zrevrangebyscore": "0..3 members, 11 bound tokens each side incl. exclusive and infinities", "multi_key": "MSET/MSETNX/MGET over keys {a,b,c} with duplicates and every present/absent combination; map iteration order enumerated", "hash": "0..2 fields; HEXISTS HSTRLEN HLEN HKEYS HVALS HMGET HMSET", "system": "PING, PING msg, ECHO, CONFIG SET/GET over 2 keys"}
+			return map[string]interface{}{"getrange": "value length 0..4 (thorough 6), all byte values; start/end: sign + 1..2 symbolic digits and 8 boundary integers; missing key", "counters": "stored value absent / sign + 1..2 symbolic digits / any 0..2-byte non-integer (the empty string included); increment symbolic or int64 boundary", "programs": "2 (thorough 3) steps from MSET, MSETNX a|b, INCR, APPEND, MGET, STRLEN, GETRANGE over keys a,b each absent / \"5\" / empty, against an executable model", "zrevrange": "0..4 (thorough 5) members, start/stop sign + 1..2 symbolic digits, with and without scores", "zrevrangebyscore": "0..3 members, 11 bound tokens each side incl. exclusive and infinities", "multi_key": "MSET/MSETNX/MGET over keys {a,b,c} with duplicates and every present/absent/empty-valued combination; map iteration order enumerated", "hash": "0..2 fields; HEXISTS HSTRLEN HLEN HKEYS HVALS HMGET HMSET", "system": "PING, PING msg, ECHO, CONFIG SET/GET over 2 keys"}
 		},
 		Assumptions: append(append([]string{
 			"the handler is the harness's reference store whose primitive operations (Get, Set incl. NX, HGet, HSet, HGetAll, SMembers, ZRange, ZRangeByScore) follow Redis",
@@ -434,7 +466,7 @@ func init() {
 				return []JobSpec{
 					{Set: "redis", Fn: "HarnessC19Endings", Params: p("requests", "3", "junk", "4"), Split: 4},
 					{Set: "redis", Fn: "HarnessC19Stop", Params: p("clients", "2", "preempt", "1"), Split: 8, Overrides: netOverrides},
-					{Set: "redis", Fn: "HarnessC19Stop", Params: p("clients", "3", "preempt", "0"), Split: 6, Overrides: netOverrides},
+					{Set: "redis", Fn: "HarnessC19Stop", Params: p("clients", "3", "preempt", "0", "maxsent", "1"), Split: 8, Overrides: netOverrides},
 					{Set: "redis", Fn: "HarnessC09Handshakes", Params: p("clients", "3", "preempt", "0"), Overrides: netOverrides},
 				}
 			}
@@ -444,10 +476,11 @@ func init() {
 				{Set: "redis", Fn: "HarnessC09Handshakes", Params: p("clients", "2", "preempt", "0"), Overrides: netOverrides},
 			}
 		},
+		UnwindIsFinding: true, // a connection loop that never returns is a leaked connection
 		EngineOnly:     map[string]bool{"HarnessC19Stop": true, "HarnessC09Handshakes": true},
-		RequiredCovers: map[string][]string{"HarnessC19Endings": {"end", "eof-at-boundary", "eof-inside-request", "reset", "quit", "malformed", "write-failure", "rejected-certificate"}, "HarnessC19Stop": {"end", "mid-request", "close-error"}, "HarnessC09Handshakes": {"end", "failed-handshake"}},
+		RequiredCovers: map[string][]string{"HarnessC19Endings": {"end", "eof-at-boundary", "eof-inside-request", "reset", "quit", "malformed", "write-failure", "rejected-certificate"}, "HarnessC19Stop": {"end", "mid-request", "close-error", "blocked-write"}, "HarnessC09Handshakes": {"end", "failed-handshake"}},
 		Bounds: func(tier string) map[string]interface{} {
-			return map[string]interface{}{"endings": "FIN at a request boundary, FIN at every offset inside the pipeline, RST at every offset, QUIT, malformed frame (1..2, thorough 4 arbitrary bytes), write failure from reply k on, rejected certificate, TLS handshake failure/stall, server Stop with idle and mid-request clients", "pipeline": "1..2 (thorough 3) SET requests with symbolic payload", "stop": "1..2 (thorough 3) clients, each with 0..2 complete requests sent and optionally a partial one"}
+			return map[string]interface{}{"endings": "FIN at a request boundary, FIN at every offset inside the pipeline, RST at every offset, QUIT, malformed frame (1..2, thorough 4 arbitrary bytes), write failure from reply k on, rejected certificate, TLS handshake failure/stall, server Stop with idle and mid-request clients", "pipeline": "1..2 (thorough 3) SET requests with symbolic payload", "stop": "1..2 clients, each with 0..2 complete requests sent (thorough: also 3 clients with 0..1) and optionally a partial one; the first client may have stopped reading (the server's reply write blocks until the socket is closed)"}
 		},
 		Assumptions: append(append([]string{
 			"per-connection release is what is decided: socket closed, connection loop returned, registry entry gone; return-to-baseline under churn follows inductively because connections share no per-connection resource (C13/C14); descriptor and goroutine counts over 10^4 real cycles are outside the claim",
@@ -459,7 +492,7 @@ func init() {
 
 var c18Commands = []string{"SET", "GET", "GETSET", "SETNX", "APPEND", "STRLEN", "MSET", "MGET", "DEL", "EXISTS", "TYPE", "RENAME", "RENAMENX", "KEYS",
 	"HSET", "HGET", "HDEL", "HLEN", "HGETALL", "LPUSH", "RPUSH", "LPOP", "RPOP", "LPOPN", "RPOPN", "LRANGE", "LINDEX", "LLEN",
-	"SADD", "SREM", "SMEMBERS", "SCARD", "SISMEMBER", "ZADD", "ZREM", "ZSCORE", "ZCARD", "ZINCRBY", "ZRANGE", "ZRANGEBYSCORE"}
+	"SADD", "SREM", "SMEMBERS", "SCARD", "SISMEMBER", "ZADD", "ZREM", "ZSCORE", "ZCARD", "ZINCRBY", "ZRANGE", "ZRANGEREV", "ZRANGEBYSCORE"}
 
 func init() {
 	register(&Prop{
@@ -493,8 +526,8 @@ func init() {
 	register(&Prop{
 		ID: "C14",
 		Jobs: func(rc *RunCtx) []JobSpec {
-			entries := []string{"configset", "configget", "setpass", "ping", "ping-lc", "select", "auth", "get", "quit", "connect", "conns", "connbyuuid", "addauth", "requirepass", "stop", "restart"}
-			lifecycle := map[string]bool{"stop": true, "restart": true}
+			entries := []string{"configset", "configget", "setpass", "ping", "ping-lc", "select", "auth", "get", "quit", "connect", "conns", "connbyuuid", "addauth", "requirepass", "stop", "restart", "rotate"}
+			lifecycle := map[string]bool{"stop": true, "restart": true, "rotate": true}
 			pre := "1"
 			if rc.Tier == "thorough" {
 				pre = "2"
@@ -506,12 +539,16 @@ func init() {
 						continue
 					}
 					for _, wp := range []string{"0", "1"} {
-						if wp == "1" && !(a == "auth" || b == "auth" || a == "setpass" || b == "setpass" || a == "requirepass" || b == "requirepass" || a == "restart" || b == "restart") {
+						if wp == "1" && !(a == "auth" || b == "auth" || a == "setpass" || b == "setpass" || a == "requirepass" || b == "requirepass" || a == "restart" || b == "restart" || a == "rotate" || b == "rotate") {
 							continue
 						}
 						js = append(js, JobSpec{Set: "redis", Fn: "HarnessC14Pair", Params: p("a", a, "b", b, "preempt", pre, "withpass", wp), Overrides: netOverrides})
 					}
 				}
+			}
+			// every registered command against itself (two connections, different arguments)
+			for _, c := range CommandNames(rc.Ld) {
+				js = append(js, JobSpec{Set: "redis", Fn: "HarnessC14Pair", Params: p("a", "cmd:0:"+c, "b", "cmd:1:"+c, "preempt", pre, "withpass", "0"), Overrides: netOverrides})
 			}
 			return js
 		},
@@ -533,7 +570,7 @@ func init() {
 		ID: "C15",
 		Jobs: func(rc *RunCtx) []JobSpec {
 			var js []JobSpec
-			seqs := []string{"ST", "SR", "SRT", "STS", "SRR", "SS"}
+			seqs := []string{"ST", "SR", "SRT", "STS", "SRR", "SS", "SDT"}
 			cl, pre := "1", "1"
 			if rc.Tier == "thorough" {
 				seqs = append(seqs, "STST", "SRTS", "STSR", "SRRT")
@@ -543,7 +580,12 @@ func init() {
 				js = append(js, JobSpec{Set: "redis", Fn: "HarnessC15Lifecycle", Params: p("seq", s, "clients", cl, "preempt", pre), Split: 6, Overrides: netOverrides})
 			}
 			// both ports (TLS handshake stubbed): the TLS accept loop has its own shutdown path
-			for _, s := range []string{"SRT", "STS", "SRTS"} {
+			tl := []string{"SRT", "STS", "SRTS"}
+			if rc.Tier == "thorough" {
+				// the plain port disabled by configuration while running, with the TLS port still enabled
+				tl = append(tl, "SDT", "SDR")
+			}
+			for _, s := range tl {
 				js = append(js, JobSpec{Set: "redis", Fn: "HarnessC15Lifecycle", Params: p("seq", s, "clients", "0", "preempt", "1", "tls", "1"), Split: 6, Overrides: netOverrides})
 			}
 			return js
@@ -551,7 +593,7 @@ func init() {
 		EngineOnly:     map[string]bool{"HarnessC15Lifecycle": true},
 		RequiredCovers: map[string][]string{"HarnessC15Lifecycle": {"end", "started", "stopped", "call-failed"}},
 		Bounds: func(tier string) map[string]interface{} {
-			return map[string]interface{}{"histories": "Start/Stop/Restart sequences ST, SR, SRT, STS, SRR, SS (thorough: + STST, SRTS, STSR, SRRT) on the plain port; SRT, STS, SRTS with the TLS port enabled as well", "clients": "1 (thorough 2) clients, each arriving while a nondeterministically chosen lifecycle call executes, then idle", "schedules": "caller, accept loops, connection goroutines and clients interleaved at synchronisation operations and at the verif-tagged schedule points, <=1 (thorough 2) preemptions", "network": "stub port table (bind fails while a listener on the port is open; closing a listener resets queued connections; a blocked Accept returns on close)"}
+			return map[string]interface{}{"histories": "Start/Stop/Restart sequences ST, SR, SRT, STS, SRR, SS, SDT (D = the plain port disabled by configuration while running) (thorough: + STST, SRTS, STSR, SRRT) on the plain port; SRT, STS, SRTS (thorough: + SDT, SDR) with the TLS port enabled as well", "clients": "1 (thorough 2) clients, each arriving while a nondeterministically chosen lifecycle call executes, then idle", "schedules": "caller, accept loops, connection goroutines and clients interleaved at synchronisation operations and at the verif-tagged schedule points, <=1 (thorough 2) preemptions", "network": "stub port table (bind fails while a listener on the port is open; closing a listener resets queued connections; a blocked Accept returns on close)"}
 		},
 		Assumptions: append([]string{
 			"net.Listen is redirected to the harness's port table; Accept blocks until a connection is queued or the listener is closed",
